@@ -24,7 +24,7 @@ from ..ilvq import order_from_model, solve, feasible, no_deadlock, hangs, note_b
 # ---------------------------------------------------------------------------------------------- X1 sequence numbers
 @vc("C15", "X1-sequence-numbers-distinct")
 def sequence_numbers(ctx):
-    n = 3
+    n = 4 if ctx.tier == "thorough" else 3
 
     def build(E):
         R, ll, got = real_router()
@@ -66,12 +66,12 @@ def sequence_numbers(ctx):
         return fin_ != want, f"counter {vals['sn0']} after {n} concurrent calls is {fin_}, expected {want} (an increment was lost; switch points: {sched.trace})"
     feasible(ctx, il, "X1-some-schedule")
     solve(ctx, il, "X1-pairwise-distinct", z3.Or(*[rets[i] == rets[j] for i in range(n) for j in range(i)]), vars={"sn0": z3.Int("sn0")}, replay=replay,
-          desc="three concurrent get_sequence_number() calls return pairwise distinct numbers, from every counter value (wrap at 65535 included), under every interleaving")
+          desc=f"{n} concurrent get_sequence_number() calls return pairwise distinct numbers, from every counter value (wrap at 65535 included), under every interleaving")
     solve(ctx, il, "X1-no-exception", exc, vars={"sn0": z3.Int("sn0")}, replay=replay)
-    solve(ctx, il, "X1-counter-advanced-by-three", il.final(E.shared[E.order[0]][0], "sequence_number")[0] != (z3.Int("sn0") + 3) % 65535, vars={"sn0": z3.Int("sn0")},
+    solve(ctx, il, "X1-counter-advanced-once-per-call", il.final(E.shared[E.order[0]][0], "sequence_number")[0] != (z3.Int("sn0") + n) % 65535, vars={"sn0": z3.Int("sn0")},
           replay=replay_final)
     no_deadlock(ctx, il, "X1")
-    note_blocks(ctx, il, "3 x get_sequence_number")
+    note_blocks(ctx, il, f"{n} x get_sequence_number")
 
 
 # ---------------------------------------------------------------------------------------------- X2 contention-based forwarding
@@ -814,3 +814,122 @@ def ego_pv(ctx):
     note_blocks(ctx, il, "gn_data_request_beacon || refresh_ego_position_vector x 2")
     ctx.stub("refresh_with_tpv_data returns a fresh arbitrary position vector (its computation is C11/C01 material); header and vector encoders return placeholders, "
              "the encoded vector's fields are recorded")
+
+
+# ---------------------------------------------------------------------------------------------- thorough tier: three actors
+@vc("C15", "X2-cbf-expiry-versus-two-receptions", tiers=("thorough",))
+def cbf_three_actors(ctx):
+    """timer expiry racing with two receptions of the same packet (the second reception re-buffers what the first one cancelled)"""
+    state = {}
+    present = z3.Bool("entry_present")
+    pending = z3.Int("pending_timer")
+    own_buffered = z3.And(present, pending == OWN)
+
+    def build(E):
+        R, Ro, sends, cancels = _cbf_env(E, present)
+        state.update(R=R, Ro=Ro, sends=sends, cancels=cancels)
+        pkt = SBytes([z3.BitVecVal(i, 8) for i in range(8)])
+        args = [Ro, BasicHeader(), CommonHeader(), EXT, b"PAYLOAD"]
+        return dict(threads=[("expiry", Router._cbf_timeout, [Ro, CBF_KEY, pkt]), ("rx1", Router.gn_area_cbf_forwarding, list(args)),
+                             ("rx2", Router.gn_area_cbf_forwarding, list(args))], locks=[R._cbf_lock], lock_names=["_cbf_lock"])
+    il = Ilv(build).run()
+    il.cons = il.encode()
+    sends, cancels = state["sends"], state["cancels"]
+    names = ("expiry", "rx1", "rx2")
+    sent = z3.Or(*[c for c, i, p in sends]) if sends else FALSE
+    nsent = sum([z3.If(c, 1, 0) for c, i, p in sends]) if sends else z3.IntVal(0)
+    own_cancelled = z3.Or(*[z3.And(c, t == OWN) for c, i, t in cancels]) if cancels else FALSE
+    exc = z3.Or(*[c for nm in names for c, k in il.rets[nm][1]]) if any(il.rets[nm][1] for nm in names) else FALSE
+    vars_ = {"entry_present": present, "own_copy_buffered": own_buffered}
+
+    def replay(vals):
+        from unittest import mock
+        import flexstack.geonet.router as RM
+        R, ll, got = real_router()
+        sched = Scheduler(vals["schedule"])
+        own = _OwnTimer(None, "expiry", ll)
+        if vals["own_copy_buffered"]:
+            R._cbf_buffer[CBF_KEY] = own
+        elif vals["entry_present"]:
+            R._cbf_buffer[CBF_KEY] = _FakeTimer(ll)
+
+        def mk(target, name):
+            own.function = target
+            return own
+        gate_object(R, {"_cbf_buffer": "_cbf_lock"}, sched, il.und_names)
+        rx = lambda: R.gn_area_cbf_forwarding(BasicHeader(), CommonHeader(), EXT, b"PAYLOAD")
+        with mock.patch.object(RM, "Timer", lambda *a, **k: _FakeTimer(ll)):
+            res, sched = run_schedule(vals["schedule"], {"expiry": lambda: R._cbf_timeout(CBF_KEY, b"PKT"), "rx1": rx, "rx2": rx}, sched, mk_thread={"expiry": mk})
+        if sched.failed:
+            return False, "replay scheduler: " + sched.failed
+        bad = [f"{n} raised {r[1]!r}" for n, r in res.items() if r[0] == "raised"]
+        if not vals["own_copy_buffered"] and ll.sent:
+            bad.append("the expired timer's copy was transmitted although its entry had already been removed")
+        if vals["own_copy_buffered"] and own.cancelled and ll.sent:
+            bad.append("own copy both cancelled and transmitted")
+        if len(ll.sent) > 1:
+            bad.append(f"transmitted {len(ll.sent)} times")
+        return bool(bad), f"expiry || reception || reception from entry_present={vals['entry_present']} own_copy_buffered={vals['own_copy_buffered']}: " + \
+            ("; ".join(bad) or "ok") + f" (switch points {sched.trace})"
+    feasible(ctx, il, "X2d-some-schedule")
+    feasible(ctx, il, "X2d-cancelled-then-rebuffered", z3.And(own_buffered, own_cancelled, il.final(state["Ro"], "_cbf_buffer")[0]))
+    solve(ctx, il, "X2d-no-exception", exc, vars=vars_, replay=replay)
+    solve(ctx, il, "X2d-never-both-cancelled-and-transmitted", z3.And(own_buffered, sent, own_cancelled), vars=vars_, replay=replay)
+    solve(ctx, il, "X2d-cancelled-copy-never-transmitted", z3.And(z3.Not(own_buffered), sent), vars=vars_, replay=replay)
+    solve(ctx, il, "X2d-transmitted-at-most-once", nsent > 1, vars=vars_, replay=replay)
+    no_deadlock(ctx, il, "X2d")
+    note_blocks(ctx, il, "_cbf_timeout || gn_area_cbf_forwarding || gn_area_cbf_forwarding (same packet)")
+
+
+@vc("C15", "X3-location-service-request-reply-retransmission", tiers=("thorough",))
+def ls_three_actors(ctx):
+    """a new unicast request, the LS reply and the retransmission timer of the same lookup, all three concurrent"""
+    st = {}
+
+    def build(E):
+        R, Ro, entry = _ls_env(E, st)
+        E.assumptions.append(st["pending0"])
+        _ls_reply_env(E, st)
+        st["r1"] = E.tokref(z3.IntVal(501))
+        return dict(threads=[("request", Router.gn_ls_request, [Ro, DEST, st["r1"]]), ("timer", Router._ls_retransmit, [Ro, DEST]),
+                             ("reply", Router.gn_data_indicate_ls_reply, [Ro, bytes(60), CommonHeader(), BasicHeader()])],
+                    locks=[R._ls_lock], lock_names=["_ls_lock"])
+    il = Ilv(build, unroll=4).run()
+    il.cons = il.encode()
+    names = ("request", "timer", "reply")
+    fin, pend, has, nguc, nsent, exc, vars_ = _ls_common(il, st, names)
+    cnt = z3.Int("retransmit_count")
+
+    def replay(vals):
+        from unittest import mock
+        import flexstack.geonet.router as RM
+        R, sched, flag, sent, guc, old_timer = _ls_real(vals, il, names)
+        R.duplicate_address_detection = lambda a: None
+        packet = st["reply_hdr"].encode()
+        with mock.patch.object(RM, "Timer", lambda *a, **k: mock.Mock()):
+            res, sched = run_schedule(vals["schedule"], {"request": lambda: R.gn_ls_request(DEST, "req-new"), "timer": lambda: R._ls_retransmit(DEST),
+                                                         "reply": lambda: R.gn_data_indicate_ls_reply(packet, CommonHeader(), BasicHeader())}, sched)
+        if sched.failed:
+            return False, "replay scheduler: " + sched.failed
+        buf = R._ls_packet_buffers.get(DEST, [])
+        bad = [f"{n} raised {r[1]!r}" for n, r in res.items() if r[0] == "raised"]
+        for r, was in (("req-new", True), ("old", vals["one_request_already_buffered"])):
+            if not was:
+                continue
+            n_sent, waiting = guc.count(r), (r in buf and flag["v"])
+            if n_sent > 1:
+                bad.append(f"{r} sent {n_sent} times")
+            if n_sent == 1 and r in buf:
+                bad.append(f"{r} sent and still buffered")
+            if n_sent == 0 and not waiting and vals["retransmit_count"] < MAXR:
+                bad.append(f"{r} neither sent after the reply nor waiting for a pending lookup although the retry limit was not reached (lost)")
+        return bool(bad), "request || retransmission || reply: " + ("; ".join(bad) or "ok") + f" (sent {guc}, buffer {buf}, pending {flag['v']}, switch points {sched.trace})"
+    ok = lambda tok: z3.Or(z3.And(nguc(tok) == 1, z3.Not(has(tok))), z3.And(nguc(tok) == 0, has(tok), pend), z3.And(nguc(tok) == 0, z3.Not(has(tok)), cnt >= MAXR))
+    feasible(ctx, il, "X3e-some-schedule")
+    solve(ctx, il, "X3e-no-exception", exc, vars=vars_, replay=replay)
+    solve(ctx, il, "X3e-new-request-sent-once-waiting-or-dropped-at-the-limit", z3.Not(ok(501)), vars=vars_, replay=replay,
+          desc="sent exactly once after the reply, or still buffered under a pending lookup, or dropped by the give-up at the retry limit - never lost otherwise, never twice")
+    solve(ctx, il, "X3e-earlier-request-sent-once-waiting-or-dropped-at-the-limit", z3.And(st["has_old"], z3.Not(ok(500))), vars=vars_, replay=replay)
+    no_deadlock(ctx, il, "X3e")
+    bounds_ok(ctx, il, "X3e")
+    note_blocks(ctx, il, "gn_ls_request || _ls_retransmit || gn_data_indicate_ls_reply (same destination)")
